@@ -753,9 +753,9 @@ def build(spec, rng, now=None):
             others = sorted(k for k in cns if k not in (n, parent, ROOT_NAME, "foreign_root")
                             and not (k.startswith("embedded:") and parent == ROOT_NAME
                                      and sp["embed"]["kind"] == "genuine"))
-            if not others:
-                raise ValueError("dupsubject: no other X.509 element to share a subject with")
-            cns[n] = cns[rng.choice(others)]
+            # (a chain with no other X.509 element to share a subject with - e.g. a forged one-element branch -
+            # shares its issuer's instead: names inside the certificate do not enter the reference verdict)
+            cns[n] = cns[rng.choice(others)] if others else issuer_cn
         elif naming == "rootsubject":
             cns[n] = root_cn
         elif naming != "canon":
